@@ -542,6 +542,15 @@ arRdItemArch(Archive ar)
 		idx, (ULong)strLength(ar->names));
 
 
+	/* The offset comes from the file: it must lie inside the table. */
+	if (idx >= strLength(ar->names)) {
+		comsgError(NULL, ALDOR_E_ArBadNumber, arToString(ar));
+		arPosition(ar) = 0;
+		arItem(ar) = 0;
+		return name;
+	}
+
+
 	/* Start a new character buffer */
 	buf = bufNew();
 
